@@ -276,3 +276,59 @@ impl Space for ClockJumps {
         ))
     }
 }
+
+
+/// Virtual time passes during *each* of several solves of one solver object -- 60 % of the limit per solve,
+/// so no single solve exceeds it. The time limit is per solve: every re-solve must end exactly like the first
+/// (elapsed time must not accumulate across solves).
+pub struct ClockResolves {
+    pub resolves: usize,
+}
+impl Space for ClockResolves {
+    fn name(&self) -> String {
+        format!("clock-resolves-{}", self.resolves)
+    }
+    fn size(&self) -> u64 {
+        2 * bases().len() as u64
+    }
+    fn describe(&self, id: u64) -> Value {
+        json!({"base_problem": bases()[(id / 2) as usize].to_json(), "verbose": id % 2 == 1, "time_limit_s": LIMIT_S, "virtual_time_per_solve_s": 0.6 * LIMIT_S, "solves_on_one_object": self.resolves + 1})
+    }
+    fn bound(&self) -> Value {
+        json!({"solves_on_one_object": self.resolves + 1, "virtual_time_per_solve": "0.6 x time_limit, during iteration 1"})
+    }
+    fn run(&self, id: u64, ctx: &mut Ctx) -> CaseResult {
+        let p = &bases()[(id / 2) as usize];
+        let mut st = DefaultSettings::<f64>::default();
+        st.verbose = id % 2 == 1;
+        st.time_limit = LIMIT_S;
+        let script = vec![Act::Clock((0.6 * LIMIT_S * 1e9) as u64)];
+        let out = guarded(|| {
+            let mut solver = build_faulty(p, st.clone(), script.clone());
+            solver.info.print_to_buffer();
+            vclock_arm();
+            let mut res = vec![];
+            for _ in 0..=self.resolves {
+                // the script applies to every solve: the seam counts iterations from the start of each one
+                solver.kktsystem.loop_updates = 0;
+                solver.kktsystem.in_loop = false;
+                solver.solve();
+                res.push((solver.solution.status, solver.solution.iterations));
+            }
+            vclock_disarm();
+            res
+        })
+        .map_err(|e| {
+            vclock_disarm();
+            Violation::new("panic-under-clock-jump", e)
+        })?;
+        ctx.transitions += out.len() as u64;
+        ctx.nontrivial += 1;
+        ensure!(out[0].0 != SolverStatus::MaxTime, "maxtime-without-exceeding-the-limit", "first solve: {:?}", out[0]);
+        for (k, r) in out.iter().enumerate().skip(1) {
+            ensure!(*r == out[0], "time-limit-accumulates-across-solves", "solve #{} ended {:?} after {} iterations, the first one {:?} after {}", k + 1, r.0, r.1, out[0].0, out[0].1);
+        }
+        ctx.outcome(status_name(out[0].0));
+        Ok(())
+    }
+}
